@@ -29,7 +29,10 @@ PROPS = {
             'parse() precondition: 5 + 5 * tokens <= 2^24 (node ids are 24 bits): for inputs above ~3.3 million tokens U24::new would overflow (debug_assert) - documented size regime, see DESIGN.md section 5 (D10)',
             'unbounded stack: recursion depth of the parser is not bounded by any obligation (D4: 5000 nested parentheses overflow the stack)',
             '.into() conversions from lexer TokenId to parse_node::TokenId: argument < 2^24 not checked per call site (trait impls cannot carry requires); holds because cursor <= number of tokens < 2^24'], 'trusted': []},
-    'C17': {'units': ['U-HDR', 'U-PARSE', 'U-DIG'], 'assumptions': ['tree invariant (zones well bracketed, no reference crosses a zone) is a precondition of build_header; on the parser side only the zone DISCIPLINE is proved (private declarations and the bodies of public functions are parsed inside a private zone, public declarations outside), not the full bracket/reference invariant'], 'trusted': []},
+    'C17': {'units': ['U-HDR', 'U-PARSE', 'U-DIG'], 'assumptions': [
+            'refs_ok (no node id stored in a public node points below the number of skipped nodes, i.e. no reference crosses a zone) stays a precondition of build_header: it is NOT proved of the parser output. The other half of the tree invariant (zones well bracketed: tree_ok) IS proved as a postcondition of parse() and matches build_header\'s precondition literally (same spec file)',
+            'parse() and build_header() are verified in two units (U-PARSE, U-HDR) that include the same spec text spec/u_hdr_spec.rs; the composition parse();build_header() is by matching pre/postcondition text, not by one Verus run',
+            'the semantic reading "exactly the public interface" relies on the zone discipline: private declarations and the bodies of public functions are parsed inside a private zone, public declarations outside (proved: C17.parse.zone_matches_visibility, function_body_is_parsed_inside_a_private_zone)'], 'trusted': []},
 }
 
 NOT_APPLICABLE = {
@@ -51,27 +54,64 @@ for _p, _r in PENDING.items():
     if _p not in PROPS:
         NOT_APPLICABLE[_p] = _r
 
-LEVELS = {
-    'C07': {'text': 'PARTIAL: proof (Verus, unbounded over all value types of any depth) of the coercion/equality/autoderef relations of value_type.rs against a declarative spec: equals == identity up to the char8~u8 alias, can_coerce_into / can_coerce_address_into == exactly the documented array/struct-to-view/slice coercions, autoderef never changes the underlying element/primitive type (theorem). The typer unification and argument checks are NOT under contract.',
-            'note': 'trusted: Verus+Z3, slicer/splicer, derived PartialEq/Clone are structural (assumed specs), identifier == is structural; Box::as_ref, Option::map_or std specs'},
-    'C04': {'text': 'Proof (Verus, unbounded over all statement trees and all programs): every function of label_references.rs verified against an abstract label-stack semantics; Statement/Block/FunctionBody/Declaration/analyze results equal the oracle (goto resolves iff a label of that name is visible, else E400 variant; label accepted iff name not visible, else E420 variant), stack balanced per block and empty between functions; theorem_visibility proves visible <=> label later in same block or in an enclosing block.',
-            'note': 'trusted: Verus+Z3, slicer/splicer, rules R1/R2/R14 (iterator chains to loops, iter().find to verified slice_find), derived Clone is identity, [T]::reverse spec, vstd Vec/String specs; opaque: Location, Expression, Comparison, ...; assumes < 2^32 labels; rejection surfacing (resolver) not under contract'},
-    'C06': {'text': 'Proof (Verus, unbounded over all statement trees) that syntax.rs replaces exactly the statements violating the placement rules by the E840/E800/E801 error variants (relational oracle ok/okb/okf over the three context flags, incl. flag protocol inv/mono) for Statement, Block, FunctionBody, Declaration and analyze. L1800: every Lintable impl of linter.rs verified: the LoopAsFirstStatement lints appended == exactly the oracle (branch block whose first statement is loop), in traversal order, with payload; expressions raise no L1800.',
-            'note': 'trusted: Verus+Z3, slicer/splicer, rules R1/R3, derived Default/Clone specs, [T]::reverse spec; opaque expression/location types; surfacing of Poison as diagnostics (resolver) not under contract'},
-    'C12': {'text': 'PARTIAL (small): proof that extract_public/export of expander.rs expose exactly the pub declarations, functions as signatures, Public cleared, all other fields equal; imports/poison/private give None. expand(), module composition and split-equivalence are NOT under contract.',
-            'note': 'trusted: Verus+Z3, slicer/splicer, rule R3, enumset model (remove/clone) over a Set view, Result::clone spec, opaque AST field types with identity Clone'},
-    'C13': {'text': 'PARTIAL (small): proof that every variant of Error::code() returns a code that has a section in docs/errors.md (catalogue regenerated from the headings on every run; one named obligation per variant; 8 undocumented codes are recorded known findings), plus delta token-location arithmetic (line_offset cannot underflow). Alpha spans, rendering and determinism are NOT under contract.',
-            'note': 'trusted: Verus+Z3, slicer/splicer, heading parser of docs/errors.md'},
-    'C14': {'text': 'PARTIAL: delta lexer only (unbounded, all byte strings <= 2^31): digit values, suffix table, identifier-continuation class, span arithmetic, termination and panic-freedom of all 13 loops. The alpha lexer and the equivalence of the two lexers are NOT under contract.',
-            'note': 'trusted: Verus+Z3, slicer/splicer, rules R4-R7/R12 and the verified PeekIter/slice_eq shims, std specs is_ascii/is_ascii_graphic/char::from_u32/then_some'},
-    'C15': {'text': 'Proof (Verus, unbounded) for lexing and header extraction: for every byte string the delta lexer with its uninitialised token buffers terminates without overflow, out-of-bounds access or failing expect, and the unsafe set_len precondition (cells initialised) is discharged end to end through the buffer invariant; header extraction writes in bounds and initialises what set_len exposes. parsing: all 29 parse_* functions, the cursor (parser/tokens.rs), the node buffer (parse_tree.rs) and parse() itself in ONE unit: termination, no take() after EndOfSource, no unreachable!() in consume, every debug_assert (most-recent-node, placeholder patches), node budget of 5 nodes per token so that push never exceeds the buffer, declaration loop ends at EndOfSource, unsafe set_len discharged. XML dumps excluded; recursion depth (stack) not bounded.',
-            'note': 'trusted: Verus+Z3, slicer/splicer, rewrite rules, MaybeUninit/Vec spare-capacity model (std safety contract), Vec::with_capacity gives exactly n, allocation never fails, unbounded stack'},
-    'C17': {'text': 'Proof (Verus, unbounded over all node sequences) that build_header/build_header_nodes/convert_for_head output exactly the public nodes in order, pub flag cleared, function bodies removed, node ids shifted by the number of skipped nodes, declarations = declaration nodes in order - under the tree invariant (zones well bracketed, no reference crosses a zone), which is the parser\'s obligation and is a precondition here.',
-            'note': 'trusted: Verus+Z3, slicer/splicer, rules R4/R13/R17/R18/R19, enumset bit model, U24 conversions (slice patterns; proved separately by Kani when U-DIG lands), MaybeUninit/Vec model'},
-    'C08': {'text': 'PARTIAL: proof of needs_outer_mutability (outer mutability needed unless the reference passes through a pointer), mutability::Analyzer::{declare_variable, use_variable} (E530 iff known, mutated and declared immutable; unknown => poisoned; exactly one key updated; std HashMap through vstd model) and can_hint_missing_address (E513 hint). The whole tree walk of mutability.rs (all Analyzable impls and analyze) is verified against a relational oracle: result tree and mutability table exactly as the property prescribes (var mutable, constants and ALL parameters immutable, assignment targets and address-taking that do not pass through a pointer are the mutating uses, every argument of every call analysed). The whole-program consequence is NOT under contract.',
-            'note': 'trusted: Verus+Z3, slicer/splicer, vstd HashMap axioms, derived Clone/PartialEq specs, opaque Location'},
-    'C09': {'text': 'PARTIAL: proof that min_i128/max_u128 are exactly -2^(bits-1) / 2^(bits-1)-1 / 2^bits-1 for every integer type; delta lexer: decimal/hex digit values, the eleven integer suffixes (E141 otherwise), overflow-free accumulation with E140 on overflow.',
-            'note': 'trusted: Verus+Z3, slicer/splicer; usize/pointers are 64-bit as the code itself assumes'},
-    'C11': {'text': 'PARTIAL: proof that the type-legality predicates of value_type.rs (is_wellformed, can_be_*) equal a declarative spec of the E350-E359 shapes for every type of any nesting depth; permutation invariance and cycle detection are NOT under contract.',
-            'note': 'trusted: Verus+Z3, slicer/splicer, derived PartialEq/Clone specs'},
-}
+LEVELS = {'C07': {'text': 'PARTIAL: proof (Verus, unbounded over all value types of any depth and all expression trees). value_type.rs: equals == identity up to the char8~u8 alias, can_coerce_into / can_coerce_address_into == '
+                 'exactly the documented array/struct-to-view/slice coercions, autoderef never changes the underlying element type. resolver.rs operator rules: each unary/binary/comparison operator is accepted exactly '
+                 'on its documented operand class with identical operand types, else E550/E551/E581; bit cast only pointer-to-pointer/primitive-to-primitive (E553). function_calls.rs (whole tree walk): a call is '
+                 "accepted iff the argument count equals the parameter count and every argument type is identical to the parameter type, else E510/E511 or E512/E513 at the first mismatch, checked against the callee's "
+                 'declaration. The typer (unification, insertion of Autocoerce nodes) is NOT under contract.',
+         'note': 'trusted: Verus+Z3, slicer/splicer, rules R1/R3/R13/R20/R25, unit rules RES1/RES2/FC1/FC2, derived PartialEq/Clone structural (assumed specs), vstd HashMap model, Box::as_ref / Option::map_or specs; '
+                 'preconditions callee_declared / builtin_is_implemented (D16) are obligations on earlier stages, not verified'},
+ 'C04': {'text': 'Proof (Verus, unbounded over all statement trees and all programs): every function of label_references.rs verified against an abstract label-stack semantics; '
+                 'Statement/Block/FunctionBody/Declaration/analyze results equal the oracle (goto resolves iff a label of that name is visible, else E400 variant; label accepted iff name not visible, else E420 '
+                 'variant), stack balanced per block and empty between functions; theorem_visibility proves visible <=> label later in same block or in an enclosing block.',
+         'note': 'trusted: Verus+Z3, slicer/splicer, rules R1/R2/R14 (iterator chains to loops, iter().find to verified slice_find), derived Clone is identity, [T]::reverse spec, vstd Vec/String specs; opaque: '
+                 'Location, Expression, Comparison, ...; assumes < 2^32 labels; rejection surfacing (resolver) not under contract'},
+ 'C06': {'text': 'Proof (Verus, unbounded over all statement trees) that syntax.rs replaces exactly the statements violating the placement rules by the E840/E800/E801 error variants (relational oracle ok/okb/okf over '
+                 'the three context flags, incl. flag protocol inv/mono) for Statement, Block, FunctionBody, Declaration and analyze. L1800: every Lintable impl of linter.rs verified: the LoopAsFirstStatement lints '
+                 'appended == exactly the oracle (branch block whose first statement is loop), in traversal order, with payload; expressions raise no L1800.',
+         'note': 'trusted: Verus+Z3, slicer/splicer, rules R1/R3, derived Default/Clone specs, [T]::reverse spec; opaque expression/location types; surfacing of Poison as diagnostics (resolver) not under contract'},
+ 'C12': {'text': 'PARTIAL (small): proof that extract_public/export of expander.rs expose exactly the pub declarations, functions as signatures, Public cleared, all other fields equal; imports/poison/private give None; '
+                 "find_key_offset (import resolution): an exact key wins at its first occurrence, else the first key equal to the path relative to the includer's directory, else unresolved. expand() (import fix-point), "
+                 'Compiler multi-module state and split-equivalence are NOT under contract.',
+         'note': 'trusted: Verus+Z3, slicer/splicer, rules R3, KO1-KO3 (path/iterator shims), enumset model over a Set view, Result::clone spec, opaque AST field types with identity Clone'},
+ 'C13': {'text': 'PARTIAL (small): proof that every variant of Error::code() returns a code that has a section in docs/errors.md (catalogue regenerated from the headings on every run; one named obligation per variant; '
+                 '8 undocumented codes are recorded known findings D7); alpha Location::combined_with yields a forward span that covers both spans tightly and keeps the primary line/position; delta token-location '
+                 'arithmetic cannot underflow. Alpha lexer span exactness is proved under C14. Rendering (ariadne) and run-to-run determinism (HashMap/HashSet iteration) are NOT under contract.',
+         'note': 'trusted: Verus+Z3, slicer/splicer, heading parser of docs/errors.md'},
+ 'C14': {'text': "PARTIAL: each lexer verified (Verus, unbounded over all inputs) against its own declarative spec. ALPHA (lex, lex_line, parse_integer_suffix, is_identifier_continuation): every token's span is "
+                 'start..end = exactly the characters consumed for it, on the given line, spans strictly increasing; line offsets are the running sum of (chars+1); identifiers are maximal and their text is the source '
+                 'text; 34 reserved words/builtins/identifier classification; punctuation by longest match; other characters rejected one by one; literal payloads as under C09 (D14, a span overshoot on a trailing '
+                 'backslash, was found by span_end_tracks_consumed_chars and fixed). DELTA (all byte strings <= 2^31): digit values, suffix table, identifier-continuation class, span arithmetic, termination and '
+                 'panic-freedom of all 13 loops. The equivalence of the two lexers is NOT stated as one theorem.',
+         'note': 'trusted: Verus+Z3, slicer/splicer, rules R4-R7/R12/R18/R26, RA5-RA13, verified PeekIter/CharPeekIter/slice_eq shims, assumed std specs (prelude/lexa_std.rs; str::lines modelled by three facts only); '
+                 'keyword/punctuation tables of the spec restate the language tables'},
+ 'C15': {'text': 'Proof (Verus, unbounded) for lexing and header extraction: for every byte string the delta lexer with its uninitialised token buffers terminates without overflow, out-of-bounds access or failing '
+                 'expect, and the unsafe set_len precondition (cells initialised) is discharged end to end through the buffer invariant; header extraction writes in bounds and initialises what set_len exposes. parsing: '
+                 'all 29 parse_* functions, the cursor (parser/tokens.rs), the node buffer (parse_tree.rs) and parse() itself in ONE unit: termination, no take() after EndOfSource, no unreachable!() in consume, every '
+                 'debug_assert (most-recent-node, placeholder patches), node budget of 5 nodes per token so that push never exceeds the buffer, declaration loop ends at EndOfSource, unsafe set_len discharged. parse() '
+                 "additionally ensures the zones of the produced tree are well bracketed (tree_ok, build_header's precondition). XML dumps excluded; recursion depth (stack) not bounded.",
+         'note': 'trusted: Verus+Z3, slicer/splicer, rewrite rules, MaybeUninit/Vec spare-capacity model (std safety contract), Vec::with_capacity gives exactly n, allocation never fails, unbounded stack'},
+ 'C17': {'text': 'Proof (Verus, unbounded over all node sequences) that build_header/build_header_nodes/convert_for_head output exactly the nodes outside private zones in order, pub flag cleared, function bodies '
+                 'removed, node ids shifted by the number of skipped nodes, declarations = declaration nodes in order - under the tree invariant tree_ok (zones well bracketed) && refs_ok (no reference crosses a zone). '
+                 'PARSER SIDE (U-PARSE, all 29 parse_* functions and every ParseBuffer method): the zone-bracket scan invariant is maintained by every buffer operation, zone markers are written only by '
+                 'set_private/set_public, private declarations and bodies of public functions are parsed inside a private zone and public declarations outside (zone_matches_visibility), and parse() ENSURES tree_ok of '
+                 'its result. refs_ok is not proved of the parser and stays a precondition.',
+         'note': 'trusted: Verus+Z3, slicer/splicer, rules R4/R9/R13/R17-R24, enumset bit model with closed membership, U24 conversions proved by Kani (U-DIG, full u32 domain, loop-free), MaybeUninit/Vec spare-capacity '
+                 'model'},
+ 'C08': {'text': 'PARTIAL: proof (Verus, unbounded over all trees). mutability.rs: the whole tree walk (all Analyzable impls and analyze) equals a relational oracle: var declarations mutable, constants and ALL '
+                 'parameters immutable, assignment targets and address-taking that does not pass through a pointer are the mutating uses, E530 iff the variable is known, mutated and declared immutable, exactly one '
+                 'table key updated per declaration, every argument of every call analysed. function_calls.rs: E513 hint iff taking the address would fit; the is-immediate-argument flag protocol over the whole walk '
+                 '(D13 was found by this obligation and fixed). The whole-program non-interference consequence is NOT under contract.',
+         'note': 'trusted: Verus+Z3, slicer/splicer, vstd HashMap axioms, derived Clone/PartialEq specs, opaque Location'},
+ 'C09': {'text': 'PARTIAL: proof (Verus, unbounded). value_type.rs: min_i128/max_u128 are exactly -2^(bits-1) / 2^(bits-1)-1 / 2^bits-1 for every integer type; linter.rs: L1142 raised exactly for literals outside that '
+                 'range. ALPHA LEXER (lex_line, whole function, all 12 loops): an accepted char/string literal is well formed per a declarative element grammar and its bytes are exactly the documented value (\\n \\r '
+                 '\\t \\\\ \\\' \\" \\0, \\xHH = the single byte 0xHH, \\u{...} = UTF-8 of the scalar, plain chars = their UTF-8), so malformed escapes/quotes are never accepted; integer literals: digits collected with '
+                 '_ skipped have the value of the source digits in base 10/16/2, E140 exactly when the value exceeds 128 bits, the eleven suffixes and E141 otherwise, naked/bit/suffixed token kinds. DELTA LEXER: digit '
+                 'values, suffix table, overflow-checked accumulation with E140. Parser minus-folding, typer and generator constant materialisation are NOT under contract.',
+         'note': 'trusted: Verus+Z3, slicer/splicer, rules R4-R7/R12/R18/R26 and RA5-RA13 (CharPeekIter shim verified over vstd str specs), assumed std specs of char/str/from_str_radix/parse (prelude/lexa_std.rs), '
+                 'usize is 64-bit; direction proved: accepted => well formed with documented value (completeness of acceptance and the specific E160-E163 kind per malformation not proved)'},
+ 'C11': {'text': 'PARTIAL: proof (Verus, unbounded over all types of any nesting depth). value_type.rs: is_wellformed / can_be_* equal a declarative spec of the E350-E359 shapes. typer.rs align_struct/align: alignment '
+                 'is the least multiple, total size = sum of aligned member sizes, total alignment = max member alignment, E380 iff the aligned total exceeds the declared word size, no overflow. typer.rs '
+                 'externalize_type/fix_type_for_extern: accepted iff an ABI type at every depth, else E358 naming the offending type; an accepted type stays well formed EXCEPT array views of array views (D15: recorded '
+                 'known finding with replayed witness). Permutation invariance (Compiler sorting) and cycle detection (found_container*, HashSet closures) are NOT under contract.',
+         'note': "trusted: Verus+Z3, slicer/splicer, derived PartialEq/Clone specs, vstd HashMap model; align_struct preconditions (struct/word with sized members, layout fits usize) are the typer's obligation"}}
